@@ -27,7 +27,7 @@ def main():
             'id': sid, 'property': pid,
             'origin': 'written by a fresh sub-agent that saw only the property text and a scratch worktree of /repo (nothing from /verif)',
             'files_changed': __import__('re').findall(r'^\+\+\+ b/(\S+)', open(os.path.join(d, 'patch.diff')).read(), __import__('re').M),
-            'what_changes': am.get('summary') or am.get('description') or am.get('change'),
+            'what_changes': am.get('what_changes') or am.get('summary') or am.get('description') or am.get('change'),
             'needs_to_manifest': am.get('needs_to_manifest') or am.get('needs') or am.get('trigger'),
             'why_tests_pass': am.get('why_tests_pass') or am.get('why_suite_passes'),
             'confirmed_by_me': {
